@@ -5,6 +5,30 @@ import json
 BASELINE = "cd /repo && go test -mod=mod -json -vet=off -count=1 -timeout 25m ./..."
 
 CHECKS = {
+ "C01": dict(
+  engine="E1 box-space search (explicit-state over byte strings, isolated workers)",
+  technique="explicit-state search: states = accepted byte strings reached from ~1000 box seeds and ~40 file seeds by single deviations (byte, struct and tree level); oracle on every state: re-encode == input outside the committed don't-care list, re-decode deep-equal, re-encode fixed point",
+  text="Every node of every box tree of every decodable testdata file, the upstream fuzz corpus, constructed instances of every otherwise unseeded registered box type (all 134 registered types have a seed) and generated tiny files are the initial states; every single deviation (all bit flips, boundary words, size-field values, 64-bit header form, version, each of 24 flag bits, every exported field to boundary values, child delete/duplicate/swap/move/relabel; thorough: ring 2 on seeds <= 128 bytes) that the decoder accepts is a state on which decode->encode must reproduce the input except for the rows of /verif/checks/c01_dontcare.go, decode(encode) must be deep-equal and encode must be idempotent.",
+  note="Exhaustive over the stated neighbourhoods, not over all byte strings. The don't-care list (reserved/pre_defined/template/padding rows by box type, version and payload offset, plus the named normalisations: size re-derived, 64-bit header written as 32-bit, trailing undeclared bytes dropped for byte-level deviations, moov trak regrouping, esds descriptor lengths re-derived) is committed data reviewed against ISO/IEC 14496-12/-15, 23001-7. Four known findings are listed in known_findings.txt.",
+  design="3 C01, 2 E1"),
+ "C02": dict(
+  engine="E1 box-space search + E2 builder history explorers",
+  technique="explicit-state search over accepted byte strings and over builder histories; at every node of every decoded tree and on every builder state: Size() vs bytes written vs header size field vs container sums, under every interleaving of Size/Info/Encode/EncodeSW of length <= 3",
+  text="On every E1 state (box and file level) every node of the decoded tree is walked: Size() == bytes written by Encode == EncodeSW length == big-endian size field; container = header + children at the expected positions; second encode with Info in between identical; File/InitSegment/MediaSegment/Fragment sizes. On every state of the fragment-builder (C05) and init-builder (C19) history explorers all 155 sequences of <= 3 operations from {Size, Info, Info(all:1), Encode, EncodeSW} must give identical bytes with Size() before (no trun optimisation) and after equal to the bytes written.",
+  note="Same seed/deviation neighbourhoods as C01; builder histories of depth <= 2 (quick) / 3 (thorough). An Encode error makes no claim.",
+  design="3 C02"),
+ "C03": dict(
+  engine="E1 box-space search",
+  technique="explicit-state search over accepted byte strings; differential oracle between the two encoders and, on every fixed point of one decode path, between the two decode paths (acceptance, deep equality, file shape projection); registry key-set comparison through an overlay accessor",
+  text="On every E1 state Encode and EncodeSW must give identical bytes or both fail (box level, and file level in both encode modes); every byte string that the SliceReader path reproduces exactly must be accepted by the io.Reader path with a deep-equal structure (and vice versa), and at file level with the same grouping into init segment, media segments, fragments and start positions; the key sets of the two dispatch tables must coincide.",
+  note="File level with default decode options only (as the statement says). Same neighbourhoods as C01.",
+  design="3 C03"),
+ "C04": dict(
+  engine="E1 box-space search + E4 isolated workers",
+  technique="exhaustive enumeration of every generated string (accepted or not) around the seeds through every decode path x flag set, then Info at two levels and Encode/EncodeSW in both modes with and without trun optimisation, in isolated worker processes with RLIMIT_AS, per-call allocation meter and time budget; a dead or hung worker is re-run in per-candidate tracing mode to name the killing input",
+  text="Every string produced by the E1 deviations (1.7 M in quick mode, including all truncations, size-field corruptions, count-like words inflated, boxes removed/duplicated/swapped/relabelled at every depth of ~40 whole files) is fed to DecodeBoxSR/DecodeBox or DecodeFileSR/DecodeFile/DecodeFile-lazy x {none, ISM, start-on-moof, both}; whatever decodes is printed with Info at two levels and encoded in segment and box-tree mode with and without OptimizeTrun; no panic, at most 2 s and 64 MiB + 1024 x len(input) allocated per call.",
+  note="Exhaustive over the stated neighbourhoods only; budgets are coarse (2 s, 64 MiB + 1024 B/byte). Workers run with a 6 GiB address-space limit; a dead worker is attributed to the input in flight by a tracing re-run.",
+  design="3 C04, 1.3"),
  "C12": dict(
   engine="E3 product enumerator from intended partitions + overlay driver + independent walker",
   technique="exhaustive enumeration of layouts generated from an intended partition x delimiter mechanism x decode flags x decoder; real decode/encode/UpdateSidx, output positions checked by an independent box walker",
@@ -88,6 +112,8 @@ def main():
       hooks=dict(guard="verif", enable="go build -tags verif (-overlay for generated zz_verif_*.go files; nothing is committed in /repo)",
                  baseline_off_cmd=BASELINE, source_commits=[], add_only=True),
       engines=[
+        dict(name="E1 box-space search (explicit-state over byte strings, isolated workers)", path="/verif/checks/e1_run.go", serves_properties=["C01","C02","C03","C04"], kind_free_text="explicit-state search: byte strings accepted by the decoder are states, single deviations are transitions, seeds harvested from all testdata + constructed instances; isolated worker subprocesses"),
+        dict(name="E2 history explorer", path="/verif/checks/c05.go", serves_properties=["C02","C05","C19"], kind_free_text="DFS over operation histories on real builder objects; every prefix is a checked state"),
         dict(name="E3 product enumerator", path="/verif/internal/enum", serves_properties=["C06","C07","C08","C09","C10","C11","C14","C15","C17","C18"], kind_free_text="exhaustive enumeration of products/compositions/subsets/k-deviation tuples, real code vs Go reference model"),
       ],
       checks=checks,
